@@ -70,9 +70,9 @@ impl Check for C20 {
     }
     fn n_runs(&self, thorough: bool) -> u64 {
         if thorough {
-            200_000
+            1_100_000
         } else {
-            6_000
+            24_000
         }
     }
     fn gen_plan(&self, seed: u64, _idx: u64, _t: bool) -> Value {
